@@ -3525,3 +3525,59 @@ def check_ctor_agreement(ck, rule, prog, file_rx, floor=0):
     if floor:
         ck.floor(rule, "types with new() and Default", n, floor, soft=True)
     return n
+
+
+# =====================================================================================================
+# INDEX: a secondary index (name -> key) is written only where the primary map (key -> record) is written
+# =====================================================================================================
+def check_secondary_index(ck, rule, prog, adt_rx):
+    """struct fields P: Map<K, R> and X: Map<N, K> of one crate struct (the value type of X is the key type of P): X is an index into P.
+    Every write into X (insert / or_insert / entry..insert) in the methods of that struct happens where a record is put into P as well: it
+    is dominated by an insertion into P (`P.insert(..)`, or `VacantEntry::insert` of `P.entry(..)`).  An index entry written on a path where
+    the record was already there (the Occupied side) names a key under a name its record does not carry."""
+    from prov import Prov, field_names
+    pv = Prov(prog, inline=False)
+    n = 0
+    for path, adt in sorted(prog.adts.items()):
+        if adt.get("test") or adt.get("enum") or not re.search(adt_rx, path):
+            continue
+        fields = [(f.get("name"), f.get("ty") or "") for v in adt.get("variants", []) for f in v.get("fields", [])]
+        maps = {}
+        for nm, ty in fields:
+            m = re.match(r"^std::collections::(?:HashMap|BTreeMap)<(.+)>$", ty)
+            if not m:
+                continue
+            inner = m.group(1)
+            depth, cut = 0, None
+            for i, ch in enumerate(inner):
+                depth += ch == "<"
+                depth -= ch == ">"
+                if ch == "," and depth == 0:
+                    cut = i
+                    break
+            if cut is not None:
+                maps[nm] = (inner[:cut].strip(), inner[cut + 1:].strip())
+        short = path.rsplit("::", 1)[-1]
+        for xn, (xk, xv) in sorted(maps.items()):
+            prim = [pn for pn, (pk, pv_) in maps.items() if pn != xn and pk == xv]
+            if len(prim) != 1:
+                continue
+            pn = prim[0]
+            for b in sorted(prog.production(), key=lambda z: z.id):
+                if b.kind != "AssocFn" or not b.impl_self or b.impl_self.get("adt") != path:
+                    continue
+                def field_of(t):
+                    return field_names(pv.of_operand(b, t.args[0]), short) if t.args else set()
+                xw = [(bi, t) for bi, t in b.calls() if t.callee.method in ("insert", "or_insert", "or_insert_with", "or_default") and xn in field_of(t) and pn not in field_of(t)]
+                if not xw:
+                    continue
+                pw = [bi for bi, t in b.calls() if t.callee.method in ("insert",) and pn in field_of(t) and xn not in field_of(t)]
+                for bi, t in xw:
+                    n += 1
+                    ok = any(b.dominates(p, bi) for p in pw)
+                    if not pw:
+                        ck.undecided(rule, "index/%s.%s/%s/%d" % (short, xn, b.short, bi), "%s writes the index `%s` but no insertion into `%s` is seen in its body: not decided" % (b.short, xn, pn), where=b.where(t.line))
+                    else:
+                        ck.ob(rule, "index/%s.%s/%s/%d" % (short, xn, b.short, bi), ok, "%s writes an entry of the index `%s` (-> key of `%s`) %s" % (b.short, xn, pn,
+                              "only where a record is inserted into `%s`" % pn if ok else "on a path where NO record is inserted into `%s` (the key may already be there under another name): the index then names a record that does not carry that name" % pn), where=b.where(t.line))
+    return n
